@@ -10,6 +10,7 @@ import (
 	"runtime"
 	"strconv"
 	"sync"
+	"sync/atomic"
 	"time"
 
 	saml2 "github.com/russellhaering/gosaml2"
@@ -46,15 +47,24 @@ var registry sync.Map // goroutine id -> *proc
 
 var installOnce sync.Once
 
+// YieldAtPoints makes goroutines that are not under a Run's control yield the processor at every
+// observation point (used by the stress rounds: calls change hands inside SigningContext()).
+var YieldAtPoints atomic.Bool
+
 func install() {
 	installOnce.Do(func() {
 		saml2.VerifHook = func(point string) {
 			if v, ok := registry.Load(goid()); ok {
 				v.(*proc).gate(point)
+			} else if YieldAtPoints.Load() {
+				runtime.Gosched()
 			}
 		}
 	})
 }
+
+// Install makes sure the hook is in place (NewRun does it too).
+func Install() { install() }
 
 func NewRun(n int) *Run {
 	install()
